@@ -12,6 +12,9 @@ import (
 
 func (vc *VC) evalCall(s *State, call *ast.CallExpr, want int) []*Term {
 	info := vc.frame().info
+	if len(vc.frames) == 1 && vc.fn.Spec != nil && vc.curStmt != nil && (len(vc.fn.Spec.Asserts) > 0 || len(vc.fn.Spec.SiteKFs) > 0) {
+		vc.siteClauses(s, "call:"+exprStr(call.Fun), vc.curStmt)
+	}
 	// conversion
 	if tv, ok := info.Types[call.Fun]; ok && tv.IsType() {
 		return []*Term{vc.evalConversion(s, call, tv.Type)}
